@@ -84,6 +84,7 @@ def run(pid, tier, families, t0, extra_assume=(), level="model_checking", strict
     stats = {"cases": 0, "ok": 0, "known": 0, "skip": 0, "violation": 0}
     samples = []
     nontriv = set()
+    constructs = {}
     okprogs = []     # a sample of programs the reference evaluates successfully (used by follow-up legs)
     only = os.environ.get("VERIF_ONLY")
     for name, over, sim in families:
@@ -119,9 +120,13 @@ def run(pid, tier, families, t0, extra_assume=(), level="model_checking", strict
                 if st == "ok" and len(samples) < 6 and len(c["ops"]) >= 8 and (stats["cases"] % 97 == 1):
                     samples.append({"family": name, "text": x["text"], "expect": P._show_spec(c["expect"])})
 
+        feats = set()
+
         def on_case(c):
             buf.append(c)
             ncases[0] += 1
+            if ncases[0] <= 200000:
+                features(c["prog"][c.get("npre", 0):], feats)       # the generated statements follow the prelude
             if len(buf) >= 20000:
                 flush()
 
@@ -146,6 +151,17 @@ def run(pid, tier, families, t0, extra_assume=(), level="model_checking", strict
         trans += r.generated
         C.log("[%s] %s: %d states, %d cases, %.0fs" % (pid, name, r.distinct or r.generated, ncases[0], r.wall))
         flush()
+        missing = sorted(f for a in family_actions(over.get("Fam", P.BASE_CONSTS["Fam"])) for f in EXPECTED.get(a, [])
+                         if f not in feats)
+        constructs[name] = {"produced": sorted(feats), "enabled_but_never_produced": missing}
+        # leaves and statements depend on what is in scope (a family without prelude and with one statement has no
+        # variable to mention): reported in the evidence, not an error
+        missing = [f for f in missing if f not in SOFT]
+        # without an ill-typed budget some constructs cannot occur at all (`not` over numbers, `fail`): evidence only
+        if missing and not sim and ncases[0] > 0 and over.get("Ill0", P.BASE_CONSTS["Ill0"]) != "0":
+            raise C.ToolError("family %s enables %s but no generated program contains it: the budgets "
+                              "(MaxN/MaxStk/MaxD/MaxStmts) are too small for its smallest term - the family is vacuous "
+                              "for that construct" % (name, missing))
     if after:
         try:
             after(rep, stats, okprogs)
@@ -166,12 +182,65 @@ def run(pid, tier, families, t0, extra_assume=(), level="model_checking", strict
                 "predicted outcome and values, AST::translate must emit the predicted op sequence with the predicted "
                 "statement positions; non-trivial = distinct program compiling to >= 6 ops",
         "samples": samples or [{"note": "no sample matched the sampling rule"}],
-        "stats": stats, "families": [f[0] for f in families],
+        "stats": stats, "families": [f[0] for f in families], "constructs_per_family": constructs,
         "checker_cmd": " ; ".join(cmds)[:4000],
         "exhaustive": all(f[2] is None for f in families),
         "trusted_base": ["TLC 1.8.0", "vp/render.py", "vp/coreprog.py", "harness projections"],
     }, time.time() - t0, violations=len(rep.violations), assumptions=list(extra_assume))
     return code
+
+
+# ---------------------------------------------------------------------------
+# which constructs a family actually produced (vacuity guard: an enabled generator action whose smallest term does
+# not fit the family's budgets is silently never taken - the foppre family once contained no reduce)
+# ---------------------------------------------------------------------------
+def features(x, out):
+    if isinstance(x, list):
+        for y in x:
+            features(y, out)
+        return
+    if not isinstance(x, dict):
+        return
+    if "s" in x and isinstance(x["s"], str):
+        out.add("s:" + x["s"])
+    e = x.get("e")
+    if isinstance(e, str):
+        out.add("e:" + e)
+        if e == "fop":
+            out.add("fop:" + x["kind"])
+        if e == "bin":
+            out.add("bin:" + x["op"])
+            if x["op"] == "dot" and isinstance(x.get("r"), dict):
+                if x["r"].get("e") == "call":
+                    out.add("dotcall")
+                if x["r"].get("e") == "copy":
+                    out.add("dotcopy")
+        if e == "fmt":
+            out.add("fmt:" + x.get("form", ""))
+    for v in x.values():
+        if isinstance(v, (dict, list)):
+            features(v, out)
+
+
+EXPECTED = {"fop": ["fop:map", "fop:filter", "fop:reduce"], "call": ["e:call"], "select": ["e:select"], "range": ["e:range"],
+            "cast": ["e:cast"], "func": ["e:func"], "module": ["e:module"], "copy": ["e:copy"], "list": ["e:list"],
+            "tuple": ["e:tuple"], "conlet": ["s:clet"], "exprstmt": ["s:expr"], "fmt": ["fmt:list"], "fmt1": ["fmt:single"],
+            "not": ["e:not"], "trace": ["e:trace"], "fail": ["e:fail"], "is": ["bin:is"], "inname": ["bin:in"],
+            "dot": ["bin:dot"], "bin": ["e:bin"], "dotcall": ["dotcall"], "dotcopy": ["dotcopy"], "let": ["s:let"],
+            "lit": ["e:lit"], "var": ["e:sym"]}
+SOFT = {"e:sym", "e:lit", "s:let", "e:bin", "bin:dot", "e:call", "s:expr"}
+_FAMS = None
+
+
+def family_actions(fam_ref):
+    """the set of generator actions a family enables: `<- FamX` looked up in spec/MC_Gen.tla"""
+    global _FAMS
+    if _FAMS is None:
+        import re
+        _FAMS = {}
+        for m in re.finditer(r"^(Fam\w+) == \{([^}]*)\}", open(os.path.join(C.SPEC, "MC_Gen.tla")).read(), re.M):
+            _FAMS[m.group(1)] = set(re.findall(r'"(\w+)"', m.group(2)))
+    return _FAMS.get(fam_ref.replace("<-", "").strip(), set())
 
 
 def trace_leg(tier, rep, stats, okprogs, gd_tag="c01t"):
